@@ -209,6 +209,10 @@ struct Sim {
     router: Arc<VRouter>,
     srv: tokio::io::DuplexStream,
     srv_closed: bool,
+    /// the server has stopped READING (not only answering): whatever the client writes stays in the pipe
+    deaf: bool,
+    /// responses of which only a first part has been written: request -> (stream, rest of the frame)
+    partial: BTreeMap<u64, (i16, Vec<u8>)>,
     buf: Vec<u8>,
     events: Arc<Mutex<Vec<Value>>>,
     calls: BTreeMap<u64, CallFut>,
@@ -290,7 +294,7 @@ impl Sim {
 
     async fn drain_server(&mut self) -> bool {
         let mut progressed = false;
-        if self.srv_closed {
+        if self.srv_closed || self.deaf {
             return false;
         }
         loop {
@@ -364,6 +368,40 @@ impl Sim {
         }
     }
 
+    /// writes only the first `k` bytes of r's response; `respond_rest` writes the remainder (and only then the response counts as sent)
+    async fn respond_part(&mut self, r: u64, k: usize) -> bool {
+        if self.srv_closed {
+            return false;
+        }
+        if let Some(stream) = self.have.remove(&r) {
+            let size = self.resp_size.get(&r).copied().unwrap_or(0);
+            let f = resp_frame(stream, r, size);
+            let k = k.min(f.len().saturating_sub(1)).max(1);
+            if self.srv.write_all(&f[..k]).await.is_err() {
+                return false;
+            }
+            self.partial.insert(r, (stream, f[k..].to_vec()));
+            true
+        } else {
+            false
+        }
+    }
+
+    async fn respond_rest(&mut self, r: u64) -> bool {
+        if self.srv_closed {
+            return false;
+        }
+        if let Some((stream, rest)) = self.partial.remove(&r) {
+            if self.srv.write_all(&rest).await.is_err() {
+                return false;
+            }
+            self.ev(json!({"ev":"SrvSend","stream":stream,"r":r}));
+            true
+        } else {
+            false
+        }
+    }
+
     async fn respond(&mut self, r: u64) -> bool {
         if self.srv_closed {
             return false;
@@ -407,7 +445,9 @@ fn run_schedule(ops: &[Value], coalescing: bool, keepalive: Option<(u64, u64)>) 
     let ops = ops.to_vec();
     let res = std::panic::catch_unwind(std::panic::AssertUnwindSafe(|| {
         rt.block_on(async move {
-            let (client, server) = tokio::io::duplex(1 << 20);
+            // ["CAP", n] as first op: the pipe holds only n bytes in each direction (a peer with a full receive buffer)
+            let cap = ops.first().filter(|o| o[0] == "CAP").and_then(|o| o[1].as_u64()).unwrap_or(1 << 20) as usize;
+            let (client, server) = tokio::io::duplex(cap);
             let router = Arc::new(spawn_router(
                 client,
                 keepalive.map(|(i, _)| Duration::from_millis(i)),
@@ -420,6 +460,8 @@ fn run_schedule(ops: &[Value], coalescing: bool, keepalive: Option<(u64, u64)>) 
                 router,
                 srv: server,
                 srv_closed: false,
+                deaf: false,
+                partial: BTreeMap::new(),
                 buf: Vec::new(),
                 events: evs,
                 calls: BTreeMap::new(),
@@ -482,6 +524,25 @@ fn run_schedule(ops: &[Value], coalescing: bool, keepalive: Option<(u64, u64)>) 
                         }
                     }
                     "C" => sim.cancel(op[1].as_u64().unwrap()),
+                    "RP" => {
+                        // the server has written only the first k bytes of r's response so far
+                        let r = op[1].as_u64().unwrap();
+                        let k = op[2].as_u64().unwrap() as usize;
+                        sim.drain_server().await;
+                        sim.respond_part(r, k).await;
+                    }
+                    "RQ" => {
+                        sim.respond_rest(op[1].as_u64().unwrap()).await;
+                    }
+                    "T" => {
+                        // time passes (virtual clock), in steps, the router running in between
+                        let ms = op[1].as_u64().unwrap();
+                        let steps = 10u64;
+                        for _ in 0..steps {
+                            tokio::time::advance(Duration::from_millis(ms / steps + 1)).await;
+                            sim.pump().await;
+                        }
+                    }
                     "R" => {
                         let r = op[1].as_u64().unwrap();
                         sim.drain_server().await;
@@ -542,7 +603,11 @@ fn run_schedule(ops: &[Value], coalescing: bool, keepalive: Option<(u64, u64)>) 
                                 // the server stops answering (also keep-alives); advance virtual time
                                 sim.ev(json!({"ev":"Fault","kind":"stall"}));
                                 let (i, t) = keepalive.unwrap_or((1000, 1000));
-                                let busy = op.get(2).and_then(|x| x.as_u64()).unwrap_or(0) == 1;
+                                let mode = op.get(2).and_then(|x| x.as_u64()).unwrap_or(0);
+                                let busy = mode >= 1;
+                                if mode == 2 {
+                                    sim.deaf = true; // the peer does not even read any more: the writer backs up
+                                }
                                 let steps = if busy { 40 } else { 6 };
                                 let step_ms = if busy { i / 3 + 1 } else { (i + t) / 2 + 1 };
                                 for k in 0..steps {
@@ -569,6 +634,10 @@ fn run_schedule(ops: &[Value], coalescing: bool, keepalive: Option<(u64, u64)>) 
             // end of schedule: without a fault the server answers everything it still holds
             sim.pump().await;
             if !broken {
+                let halves: Vec<u64> = sim.partial.keys().copied().collect();
+                for r in halves {
+                    sim.respond_rest(r).await;
+                }
                 let rest: Vec<u64> = sim.have.keys().copied().filter(|r| *r < u64::MAX / 2).collect();
                 for r in rest {
                     sim.respond(r).await;
